@@ -788,6 +788,16 @@ def common_specs(tier, seed, arb=True, locking=True, units=True):
             S.append(spec('S%d_%d' % (ln, 3), schedule=(('run', 2), ('run', 2)), seed=seed))
         for ln in (2, 3, 4, 5, 7):
             S.append(spec('S%d_%d' % (ln, 4), full=True, schedule=R2, seed=seed))
+        if units:
+            # covering design: every unit of every input kind is used by at least one simulation
+            from oracles import si as _si
+            kinds = dict(J='InertiaMoment', Tmax='Torque', w0='AngularSpeed', i='Current')
+            n = max(len(_si.units_of(k)) for k in list(kinds.values()) + ['Time', 'AngularPosition'])
+            for i in range(n):
+                pick = lambda kind: _si.units_of(kind)[i % len(_si.units_of(kind))]  # noqa
+                S.append(spec(['T1', 'T3', 'T6', 'T5'][i % 4], schedule=(('run', 3),), dt_unit=pick('Time'),
+                              init_units=(('pos', pick('AngularPosition')), ('spd', pick('AngularSpeed'))),
+                              units=tuple((k, pick(kind)) for k, kind in kinds.items()), tag=':units_cover%d' % i))
         for t in NONLOCK + (LOCK if locking else []):
             S.append(spec(t, schedule=(('run', 5),)))
             S.append(spec(t, schedule=(('run', 2), ('run', 3))))
@@ -803,7 +813,7 @@ BOUNDS = {
              '(fresh symbol per call) symbolic (L-state, T1..T7) ; K=2 with an arbitrary duty cycle in [-1,1] per '
              'instant (T3, T4) ; schedules run(4), run(2)+run(2), run(2)+reset+rerun (same/new Solver), early stop on a fresh run '
              'and during a continuation; chains of 3..8 elements',
-    'thorough': 'quick + 44 seeded chains of 2..12 elements (K=3, continuation 2+2), L-full on 5 seeded chains, K=5, '
+    'thorough': 'quick + 44 seeded chains of 2..12 elements (K=3, continuation 2+2), L-full on 5 seeded chains, K=5, 17 unit assignments covering every unit of every input kind, '
                 'continuation 2+3, arbitrary duty on T6/T7',
 }
 OUTSIDE = ('histories longer than K; branched trains (gearpy has none); loads not on the last element; floating-point '
